@@ -280,10 +280,10 @@ class MetropolisChain(MarkovChain):
                         """
                     )
 
-            self.display_progress = display_progress
-            self.ProgressPrinter = ChainProgressPrinter(
-                display=self.display_progress, leading_msg="advancing chain:"
-            )
+        self.display_progress = display_progress
+        self.ProgressPrinter = ChainProgressPrinter(
+            display=self.display_progress, leading_msg="advancing chain:"
+        )
 
     def take_step(self):
         """
